@@ -31,7 +31,8 @@ def run(argv):
         tag = hashlib.sha1(wt.encode()).hexdigest()[:10]
         shutil.rmtree(os.path.join(build.VERIF, "_build", "alt-" + tag), ignore_errors=True)
     # restore the evidence files of the unchanged tree (the run above rewrote them for the mutant)
-    subprocess.call(["git", "-C", build.VERIF, "checkout", "--", "evidence"], stdout=subprocess.DEVNULL, stderr=subprocess.DEVNULL)
+    subprocess.call(["git", "-C", build.VERIF, "checkout", "--", "evidence", "replays"], stdout=subprocess.DEVNULL, stderr=subprocess.DEVNULL)
+    subprocess.call(["git", "-C", build.VERIF, "clean", "-fdq", "replays"], stdout=subprocess.DEVNULL, stderr=subprocess.DEVNULL)
     out = os.path.join(d, "detection.json")
     prev = {}
     if os.path.exists(out):
